@@ -46,17 +46,12 @@ type hworld struct {
 	height uint64
 	nonce  uint64
 	snaps  []int
-	dirty  []bool // per snapshot: a penalty has touched delegations since it was taken
-	f10    bool   // a penalty has been taken from a delegation: finding penalty-skips-delegator-account
-	f11    bool   // a revert crossed such a penalty: finding penalty-then-revert
+	f10    bool // a penalty has been taken from a delegation: finding penalty-skips-delegator-account
 }
 
 // F10: takePenalty reduces (or removes) the delegations of the penalized validator, nobody tells the delegators' accounts
 const F10 = "penalty-skips-delegator-account"
 
-// F11: takePenalty writes the penalty into the DelegationFrom objects (and the slice) that its PartialCopy shares with the
-// old record, which the journal keeps for the undo: a revert across a penalty restores an already penalized record
-const F11 = "penalty-then-revert"
 
 func dlgSnapshot(st *state.StateDB) string {
 	var sb strings.Builder
@@ -178,28 +173,24 @@ func (h *hworld) exec(o HOp) (skipped bool, err error) {
 		staking.VerifC08Settle(st, &h.cfg, va, h.height)
 	case "root":
 		st.IntermediateRoot(true)
-		h.snaps, h.dirty = nil, nil
+		h.snaps = nil
 	case "commit":
 		if p, msg := h.w.exec(Op{K: "commit"}); p {
 			return false, fmt.Errorf("commit: %s", msg)
 		}
-		h.snaps, h.dirty = nil, nil
+		h.snaps = nil
 	case "copy":
 		h.w.exec(Op{K: "copy"})
-		h.snaps, h.dirty = nil, nil
+		h.snaps = nil
 	case "snap":
 		h.snaps = append(h.snaps, st.Snapshot())
-		h.dirty = append(h.dirty, false)
 	case "revert":
 		if len(h.snaps) == 0 {
 			return true, nil
 		}
 		i := int(o.N) % len(h.snaps)
-		if h.dirty[i] {
-			h.f11 = true
-		}
 		st.RevertToSnapshot(h.snaps[i])
-		h.snaps, h.dirty = h.snaps[:i], h.dirty[:i]
+		h.snaps = h.snaps[:i]
 	default:
 		return false, fmt.Errorf("unknown step %s", o.K)
 	}
@@ -209,19 +200,17 @@ func (h *hworld) exec(o HOp) (skipped bool, err error) {
 // oracleAll returns the first failing clause; class = the listed finding it belongs to ("" = none)
 func (h *hworld) oracleAll() (fail, class string) {
 	c := oracle(h.w.st)
-	for _, f := range []string{c.sums, c.units, c.stat, c.index} {
+	for _, f := range []string{c.sums, c.units, c.stat, c.index, c.links} {
 		if f != "" {
-			if h.f11 {
-				return f, F11
-			}
 			return f, ""
 		}
 	}
-	if c.links != "" {
+	// the finding explains the account side only: a too high delegation balance, a listed validator that holds nothing
+	if c.acct != "" {
 		if h.f10 {
-			return c.links, F10
+			return c.acct, F10
 		}
-		return c.links, ""
+		return c.acct, ""
 	}
 	return "", ""
 }
@@ -231,9 +220,6 @@ func (h *hworld) step(i int, o HOp) (skipped bool, fail, class string) {
 	defer func() {
 		if r := recover(); r != nil {
 			fail, class = fmt.Sprintf("step %d (%s): panic: %v", i, o.K, r), ""
-			if h.f11 {
-				class = F11 // the restored record shares its (shifted, nil-padded) delegation slice with the penalized one
-			}
 		}
 	}()
 	before := ""
@@ -246,9 +232,6 @@ func (h *hworld) step(i int, o HOp) (skipped bool, fail, class string) {
 	}
 	if (o.K == "penalize" || o.K == "inactivity") && dlgSnapshot(h.w.st) != before {
 		h.f10 = true
-		for k := range h.dirty {
-			h.dirty[k] = true
-		}
 	}
 	if f, cl := h.oracleAll(); f != "" {
 		return sk, fmt.Sprintf("after step %d (%s): %s", i, o.K, f), cl
